@@ -133,7 +133,8 @@ def union(*markers: BaseMarker) -> BaseMarker:
 
     # Sometimes normalization makes it more complicate instead of simple
     # -> choose candidate with the least complexity
-    unnormalized: BaseMarker = MarkerUnion(*markers)
+    # (an empty operand adds nothing and must not survive in the raw candidate)
+    unnormalized: BaseMarker = MarkerUnion(*(m for m in markers if not m.is_empty()))
     while (
         isinstance(unnormalized, (MultiMarker, MarkerUnion))
         and len(unnormalized.markers) == 1
